@@ -310,12 +310,6 @@ NAMED_MAPS = [
 sq_ = lambda t: ' '.join(t.split())
 for text_, key_, val_, absent_, after_set_, after_del_ in NAMED_MAPS:
     count('named-map')
-    if text_.startswith('let cfg = { a = 1; }; in (let cfg') or text_.startswith('let cfg = { a = 1; }; in { z }: let cfg'):
-        # listed (F-64): below a parenthesis / lambda wrapper of an outer let the inner let's re-binding is not consulted; matched by its exact symptom, anything else is reported
-        try: parse(text_ + '\n')[key_]; bad('F-64 no longer shows: doc[key] finds the innermost binding (remove the finding)', doc=text_)
-        except KeyError: count('listed/F-64')
-        except Exception as ex_: bad('mapping access through a name bound twice raises %s: %s' % (type(ex_).__name__, ex_), doc=text_)
-        continue
     try:
         d_ = parse(text_ + '\n'); got_ = d_[key_]; got_ = getattr(got_, 'value', got_)
         if got_ != val_: bad('doc[key] through a name bound twice does not read the innermost binding', doc=text_, key=key_, got=repr(got_), expected=val_)
